@@ -780,6 +780,11 @@ func (cv *Conv) Exec(e *Edge) (divs []evid.Div, fatal error) {
 		}
 		divs = append(divs, evid.Div{Prop: prop, Key: fmt.Sprintf("callbacks:%s:%s", e.Lbl.Cmd.String(), srcClass(e)),
 			Msg: fmt.Sprintf("%s: expected callbacks %v, got %v", ctx, e.Lbl.Cbs, st.Cbs), Replay: rp()})
+		if prop == "C07" && e.Src.Bdat != "none" {
+			// a chunked transfer: "end-of-file only after the LAST chunk" is C05's clause as well
+			divs = append(divs, evid.Div{Prop: "C05", Key: fmt.Sprintf("eof-without-last:%s:%s", e.Lbl.Cmd.String(), srcClass(e)),
+				Msg: fmt.Sprintf("%s: the backend's reader reported end-of-file although no LAST chunk was received: expected callbacks %v, got %v", ctx, e.Lbl.Cbs, st.Cbs), Replay: rp()})
+		}
 	}
 	// ---- concretisation-level oracles ----
 	firstSeen := map[string]bool{}
